@@ -339,6 +339,8 @@ def step (st : DSt) (toks : List String) : DSt × String :=
   | ["new", c] => (st.createFresh c (stratsOf c), "ok")
   -- `ChaperoneLoop(generator, chaperone=<addressed instance>, schema=…)`: the wrapper stores its arguments, nothing else
   | ["loop"] => (st.ensure, "ok")
+  -- the caller takes the classes from another export of the package: the same classes
+  | ["via", _] => (st, "ok")
   -- `BioAgent(...).chaperone`: a `Chaperone()` the library constructed itself (default configuration)
   | ["agent"] => (st.createFresh "none" [], "ok")
   | ["list", c] =>
